@@ -36,7 +36,7 @@ type VerifyOpts struct {
 }
 
 func allClasses() map[string]bool {
-	return map[string]bool{"SAFE": true, "POST": true, "CALL": true, "INV": true, "SEQ": true, "OWN": true, "LOCK": true, "FRAME": true}
+	return map[string]bool{"SAFE": true, "POST": true, "CALL": true, "INV": true, "SEQ": true, "OWN": true, "LOCK": true, "FRAME": true, "TERM": true}
 }
 
 // VerifyFunction generates the obligations of fn under its contract.
@@ -128,11 +128,26 @@ func VerifyFunction(L *Loaded, cs *ContractSet, fn *ssa.Function, opts VerifyOpt
 	env.errs = &specErrs
 	if ctr != nil {
 		for _, pn := range ctr.Private {
+			for _, fv := range fn.FreeVars {
+				if fv.Name() != pn {
+					continue
+				}
+				T := fv.Type().(*types.Pointer).Elem()
+				if pt, ok := T.Underlying().(*types.Pointer); ok {
+					if _, isStruct := pt.Elem().Underlying().(*types.Struct); isStruct {
+						if c, ok := x.fvCells[pn]; ok {
+							x.privateRefs = append(x.privateRefs, privateRef{st.cells[c].T, pt.Elem()})
+							x.funcsUsed["assume:separation: the object captured as "+pn+" by "+x.fnKey+" is not reachable by foreign code"] = true
+						}
+					}
+				}
+			}
 			for i, p := range fn.Params {
 				if p.Name() == pn {
 					if pt, ok := p.Type().Underlying().(*types.Pointer); ok {
 						if _, isStruct := pt.Elem().Underlying().(*types.Struct); isStruct {
 							x.privateRefs = append(x.privateRefs, privateRef{params[i].T, pt.Elem()})
+							x.addPrivateFields(st, params[i].T, pt.Elem())
 							x.funcsUsed["assume:separation: the object passed as "+pn+" to "+x.fnKey+" is not reachable by the backend or other foreign code (its fields survive foreign calls)"] = true
 						}
 					}
@@ -484,6 +499,36 @@ func (x *Exec) exitObligations(fr *Frame, st *State, rs []Val, oldSt *State, spe
 			g := x.evalBool(env, c.Expr)
 			x.curPos = x.retPos
 			x.oblige(st, "POST", "post("+name+")", g, "postcondition")
+		}
+	}
+	// constructors establish object invariants: every object allocated on
+	// this path whose type has an invariant satisfies it at the return
+	var freshKeys []string
+	for k := range st.ghost {
+		if strings.HasPrefix(k, "fresh:") {
+			freshKeys = append(freshKeys, k)
+		}
+	}
+	sort.Strings(freshKeys)
+	for _, k := range freshKeys {
+		ref := k[len("fresh:"):]
+		T, ok := x.freshTypes[ref]
+		if !ok {
+			continue
+		}
+		n, ok := T.(*types.Named)
+		if !ok || n.Obj().Pkg() == nil {
+			continue
+		}
+		invs := x.cs.ObjInvs[n.Obj().Pkg().Path()+"."+n.Obj().Name()]
+		if len(invs) == 0 {
+			continue
+		}
+		ienv := &Env{x: x, st: st, vars: map[string]Val{"self": {T: Term{ref, "Int"}, Typ: types.NewPointer(T)}}, pkg: n.Obj().Pkg()}
+		for _, c := range invs {
+			g := x.evalBool(ienv, c.Expr)
+			x.curPos = x.retPos
+			x.oblige(st, "INV", fmt.Sprintf("establishes-invariant(%s: %s)", n.Obj().Name(), c.Src), g, "an object constructed here must satisfy its type's invariant when the function returns")
 		}
 	}
 	// O-OWN: everything obtained has been closed, returned or handed on
